@@ -1,5 +1,6 @@
 import ArrProofs.Lemmas.C03Helper
 import ArrProofs.Lemmas.GenCore
+import ArrProofs.Lemmas.GenCoreShape
 /-!
 # C03 — broadcasting follows the trailing-axis stretch rule, in shape and in values
 
@@ -649,5 +650,37 @@ theorem gen_is_broadcastable_of_broadcastTo (a : Arr α) (t : List Nat) (r : Arr
 example : ArrModel.Gen.Core.Vec_is_broadcastable [2, 1, 3] [4, 1] = .ok () := by decide
 example : ArrModel.Gen.Core.Vec_is_broadcastable [2, 3] [3, 2] = .err .BroadcastShapeMismatch := by decide
 example : ArrModel.Gen.Core.Vec_is_broadcastable [2, 0] [1] = .err .BroadcastShapeMismatch := by decide
+
+/-! ### `broadcast_shape` as translated from `src/core/operations/broadcast.rs` (phase 2b)
+
+`ArrModel.Gen.Core.Array_broadcast_shape` (with `Vec_has_error` from `validators/has_error.rs`) is regenerated on every run and proved
+equal to `broadcastShape` in `ArrProofs/Lemmas/GenCoreShape.lean`. -/
+
+open ArrModel.Gen.Core in
+/-- **broadcast_shape (translated source), characterisation**: answers `r` exactly when `r` has the larger rank, every aligned pair of
+lengths is equal or contains a one, and each result axis is the non-unit length of the pair -/
+theorem gen_broadcast_shape_spec (a : Arr α) (t r : List Nat) :
+    Array_broadcast_shape a t = .ok r ↔
+      r.length = max a.shape.length t.length ∧
+      ∀ k, k < r.length →
+        (fromEnd a.shape k = fromEnd t k ∨ fromEnd a.shape k = 1 ∨ fromEnd t k = 1) ∧
+        fromEnd r k = if fromEnd a.shape k = 1 then fromEnd t k else fromEnd a.shape k := by
+  rw [broadcast_shape_eq]; exact broadcastShape_spec a.shape t r
+
+open ArrModel.Gen.Core in
+/-- a disagreement on an aligned axis where neither length is one is refused with an error value -/
+theorem gen_broadcast_shape_reject (a : Arr α) (t : List Nat) (k : Nat)
+    (h : fromEnd a.shape k ≠ fromEnd t k ∧ fromEnd a.shape k ≠ 1 ∧ fromEnd t k ≠ 1) :
+    Array_broadcast_shape a t = .err .BroadcastShapeMismatch := by
+  rw [broadcast_shape_eq]; exact broadcastShape_reject a.shape t k h
+
+open ArrModel.Gen.Core in
+/-- with no zero-length axis, every result axis is the larger aligned length -/
+theorem gen_broadcast_shape_max (a : Arr α) (t r : List Nat) (h : Array_broadcast_shape a t = .ok r) (hs : 0 ∉ a.shape) (ht : 0 ∉ t)
+    (k : Nat) : fromEnd r k = max (fromEnd a.shape k) (fromEnd t k) := by
+  rw [broadcast_shape_eq] at h; exact broadcastShape_max a.shape t r h hs ht k
+
+example : ArrModel.Gen.Core.Array_broadcast_shape (⟨List.range 6, [2, 1, 3]⟩ : Arr Nat) [4, 1] = .ok [2, 4, 3] := by decide
+example : ArrModel.Gen.Core.Array_broadcast_shape (⟨[1, 2], [2]⟩ : Arr Nat) [3] = .err .BroadcastShapeMismatch := by decide
 
 end ArrModel.C03
